@@ -44,7 +44,16 @@ func buildDocumentIdentifier(doc *spdx23.Document) string {
 }
 
 // ParseStream reads an io.Reader to parse an SPDX 2.3 document from it
-func (u *SPDX23) Unserialize(r io.Reader, _ *native.UnserializeOptions, _ interface{}) (*sbom.Document, error) {
+func (u *SPDX23) Unserialize(r io.Reader, _ *native.UnserializeOptions, _ interface{}) (doc *sbom.Document, err error) {
+	// The SPDX library panics on some malformed documents (for example a
+	// null entry in the packages list): report those as parse errors.
+	defer func() {
+		if rec := recover(); rec != nil {
+			doc = nil
+			err = fmt.Errorf("parsing SPDX json: %v", rec)
+		}
+	}()
+
 	spdxDoc, err := spdxjson.Read(r)
 	if err != nil {
 		return nil, fmt.Errorf("parsing SPDX json: %w", err)
@@ -79,14 +88,23 @@ func (u *SPDX23) Unserialize(r io.Reader, _ *native.UnserializeOptions, _ interf
 	// TODO(degradation): SPDX LicenseVersion
 
 	for _, p := range spdxDoc.Packages {
+		if p == nil {
+			continue
+		}
 		bom.NodeList.AddNode(u.packageToNode(p))
 	}
 
 	for _, f := range spdxDoc.Files {
+		if f == nil {
+			continue
+		}
 		bom.NodeList.AddNode(u.fileToNode(f))
 	}
 
 	for _, r := range spdxDoc.Relationships {
+		if r == nil {
+			continue
+		}
 		// The SPDX go library surfaces the JSON top-level elements as relationships:
 		if r.RefA.ElementRefID == "DOCUMENT" && strings.EqualFold(r.Relationship, "DESCRIBES") {
 			bom.NodeList.RootElements = append(bom.NodeList.RootElements, string(r.RefB.ElementRefID))
@@ -169,6 +187,9 @@ func (u *SPDX23) packageToNode(p *spdx23.Package) *sbom.Node {
 	if len(p.PackageExternalReferences) > 0 {
 		n.ExternalReferences = []*sbom.ExternalReference{}
 		for _, r := range p.PackageExternalReferences {
+			if r == nil {
+				continue
+			}
 			extRefType, isIdentifier, err := u.extRefToProtobomEnum(r)
 			if err != nil {
 				// TODO(degradation): Invalid external reference
